@@ -224,6 +224,7 @@ pub fn run_scen(sc: &PScen, strat: &StratSpec, seed: u64, replay: Option<Vec<u32
             multi: false,
             reg_index: i,
             expect: false,
+            container: false,
         })
         .collect();
     let ctx = Ctx::new(infos, sc.resmap.clone());
